@@ -48,6 +48,11 @@ def run(oc, tier, seed, model_available, escalate):
             tree = {"e1": b"", "sub/e2": b""}
         else:
             tree = es.gen_tree(rng, P, maxsize=1500 if P.mbs >= 20 else 200)
+        if it % 4 == 2 and P.mbs >= 20:
+            P, fsz = es.boundary_params(rng, P)
+            tree = dict(tree or {})
+            tree["boundary.bin"] = bytes(rng.randrange(256) for _ in range(fsz))
+            oc.count("directed: block starting exactly at --size")
         if not tree:
             continue
         root = os.path.join(d, "root")
